@@ -79,7 +79,11 @@ class BaseWorld:
             try:
                 v = thunk()
                 return Outcome("return", v)
-            except (core.Unsupported, core.PathInfeasible, core.EngineError, ContractViolation):
+            except core.EngineError as e:
+                # the code under test used the value model in a way the model has no answer for: undecided, the
+                # concrete evaluation of the same contract takes over
+                raise core.Unsupported(f"value model: {e}") from e
+            except (core.Unsupported, core.PathInfeasible, ContractViolation):
                 raise
             except Exception as e:  # an exception raised by the code under test is an outcome
                 return Outcome("raise", exc=e)
